@@ -45,12 +45,16 @@ Definition pval (k : pkind) (n : N) : N :=
 (** [RStatic n]: a static text; [RText l e]: [move || e.to_string()]; [RElem props kids]: an element
     with dynamic properties and children; [RIf l memo c a b]: [move || if c != 0 { Either::Left(a) }
     else { Either::Right(b) }], with [memo] the condition is read through a memo as in <Show>.
-    [l] labels a closure (echoed in the run log). Every view renders to exactly one DOM node. *)
+    [RAsync l es ea]: an async leaf, [move || { let a = es; Suspend::new(async move { wait; a + ea }) }] —
+    [es] is read in the closure, [ea] inside the future, which is a new, independent future per run.
+    [l] labels a closure (echoed in the run log). Every view renders to exactly one DOM node (an
+    async leaf to none until its first future completes). *)
 Inductive rview :=
 | RStatic (n : N)
 | RText (l : nat) (e : expr)
 | RElem (props : list (pkind * nat * expr)) (kids : list rview)
-| RIf (l : nat) (memo : bool) (c : expr) (a b : rview).
+| RIf (l : nat) (memo : bool) (c : expr) (a b : rview)
+| RAsync (l : nat) (es ea : expr).
 
 (** * Retained state *)
 (** a RenderEffect: executor task id, label, "notified since last poll" *)
@@ -63,14 +67,20 @@ Inductive inst :=
 | IStatic (id muts : nat) (n : N)
 | IText (f : ef) (e : expr) (id muts : nat) (shown : N)
 | IElem (id muts : nat) (props : list pinst) (kids : list inst)
-| IIf (f : ef) (memo : bool) (c : expr) (a b : rview) (br : bool) (child : inst).
+| IIf (f : ef) (memo : bool) (c : expr) (a b : rview) (br : bool) (child : inst)
+(** async leaf: text node (once [shown]), the outstanding future of the last run with the value of
+    [es] it captured, and whether the sources read inside the future are linked to the effect
+    (Suspend forwards them when the future completes) *)
+| IAsync (f : ef) (es ea : expr) (id muts : nat) (shown : option N) (pend : option (nat * N)) (sub : bool).
 
 Record env := {
   sigs : list N;
   neid : nat;            (* next executor task id *)
   nid : nat;             (* next DOM node id *)
   ready : list nat;      (* executor run queue, ascending *)
-  log : list nat         (* labels of closure invocations, newest first *)
+  log : list nat;        (* labels of closure invocations, newest first *)
+  nfut : nat;            (* number of futures created by async leaves so far *)
+  opened : list (nat * nat)   (* (label, number) of the futures created and not yet completed, oldest first *)
 }.
 
 Fixpoint insert_sorted (x : nat) (l : list nat) : list nat :=
@@ -80,15 +90,19 @@ Fixpoint insert_sorted (x : nat) (l : list nat) : list nat :=
   end.
 
 Definition wake (t : nat) (v : env) : env :=
-  {| sigs := sigs v; neid := neid v; nid := nid v; ready := insert_sorted t (ready v); log := log v |}.
+  {| sigs := sigs v; neid := neid v; nid := nid v; ready := insert_sorted t (ready v); log := log v; nfut := nfut v; opened := opened v |}.
 Definition logged (l : nat) (v : env) : env :=
-  {| sigs := sigs v; neid := neid v; nid := nid v; ready := ready v; log := l :: log v |}.
+  {| sigs := sigs v; neid := neid v; nid := nid v; ready := ready v; log := l :: log v; nfut := nfut v; opened := opened v |}.
 (** Executor::spawn_local: a new task is ready *)
 Definition spawn (v : env) : nat * env :=
   (neid v, {| sigs := sigs v; neid := S (neid v); nid := nid v;
-              ready := insert_sorted (neid v) (ready v); log := log v |}).
+              ready := insert_sorted (neid v) (ready v); log := log v; nfut := nfut v; opened := opened v |}).
+(** a closure run of an async leaf creates future number [nfut] *)
+Definition new_future (l : nat) (v : env) : nat * env :=
+  (nfut v, {| sigs := sigs v; neid := neid v; nid := nid v; ready := ready v; log := log v;
+              nfut := S (nfut v); opened := opened v ++ [(l, nfut v)] |}).
 Definition new_node (v : env) : nat * env :=
-  (nid v, {| sigs := sigs v; neid := neid v; nid := S (nid v); ready := ready v; log := log v |}).
+  (nid v, {| sigs := sigs v; neid := neid v; nid := S (nid v); ready := ready v; log := log v; nfut := nfut v; opened := opened v |}).
 
 (** ** build *)
 Definition build_prop (p : pkind * nat * expr) (v : env) : pinst * nat * env :=
@@ -133,6 +147,14 @@ Fixpoint build (r : rview) (v : env) {struct r} : inst * env :=
       let '(ch, v2) := build (if br then a else b) v1 in
       let '(t, v3) := spawn v2 in
       (IIf {| eid := t; lbl := l; note := false |} memo c a b br ch, v3)
+  | RAsync l es ea =>
+      (* Suspend::build: the future is pending, the state starts as the placeholder of None *)
+      let v1 := logged l v in
+      let a := eval (sigs v1) es in
+      let '(k, v2) := new_future l v1 in
+      let '(id, v3) := new_node v2 in
+      let '(t, v4) := spawn v3 in
+      (IAsync {| eid := t; lbl := l; note := false |} es ea id O None (Some (k, a)) false, v4)
   end.
 
 Fixpoint build_list (l : list rview) (v : env) : list inst * env :=
@@ -152,6 +174,7 @@ Fixpoint eids (i : inst) : list nat :=
       prop_eids ps ++ (fix go (l : list inst) : list nat :=
                          match l with [] => [] | k :: l => eids k ++ go l end) ks
   | IIf f _ _ _ _ _ ch => eid f :: eids ch
+  | IAsync f _ _ _ _ _ _ _ => [eid f]
   end.
 Definition dispose (i : inst) (v : env) : env := fold_left (fun v t => wake t v) (eids i) v.
 
@@ -191,6 +214,8 @@ Fixpoint rebuild (i : inst) (v : env) {struct i} : inst * bool * env :=
       (IElem id (m + mp + mk)%nat ps' ks', false, v2)
   | IIf f memo c a b br ch =>
       let '(i', v1) := build (RIf (lbl f) memo c a b) v in (i', true, dispose i v1)
+  | IAsync f es ea _ _ _ _ _ =>
+      let '(i', v1) := build (RAsync (lbl f) es ea) v in (i', true, dispose i v1)
   end.
 
 Fixpoint rebuild_list (l : list inst) (v : env) : list inst * nat * env :=
@@ -214,6 +239,8 @@ Fixpoint notify (i : nat) (t : inst) : inst :=
             ((fix go (l : list inst) : list inst :=
                 match l with [] => [] | k :: l => notify i k :: go l end) ks)
   | IIf f memo c a b br ch => IIf (notify_ef (reads c i) f) memo c a b br (notify i ch)
+  | IAsync f es ea id m sh pe sub =>
+      IAsync (notify_ef (reads es i || (sub && reads ea i)) f) es ea id m sh pe sub
   end.
 
 Definition hit_props (i : nat) (ps : list pinst) : list nat :=
@@ -226,6 +253,7 @@ Fixpoint hits (i : nat) (t : inst) : list nat :=
       hit_props i ps ++ (fix go (l : list inst) : list nat :=
                            match l with [] => [] | k :: l => hits i k ++ go l end) ks
   | IIf f _ c _ _ _ ch => (if reads c i then [eid f] else []) ++ hits i ch
+  | IAsync f es ea _ _ _ _ sub => if reads es i || (sub && reads ea i) then [eid f] else []
   end.
 
 Fixpoint set_nth (i : nat) (x : N) (l : list N) : list N :=
@@ -247,6 +275,7 @@ Fixpoint cleanups (i : inst) : list nat :=
   | IElem _ _ _ ks =>
       (fix go (l : list inst) : list nat := match l with [] => [] | k :: l => cleanups k ++ go l end) ks
   | IIf _ _ _ _ _ _ ch => cleanups ch
+  | IAsync _ _ _ _ _ _ _ _ => []
   end.
 Definition log_all (ls : list nat) (v : env) : env := fold_left (fun v l => logged l v) ls v.
 
@@ -310,6 +339,15 @@ Fixpoint poll (t : nat) (i : inst) (v : env) {struct i} : inst * bool * env :=
              let v3 := dispose ch v2 in if memo then wake (eid f) v3 else v3)
       else
         let '(ch', rep, v1) := poll t ch v in (IIf f memo c a b br ch', rep, v1)
+  | IAsync f es ea id m sh pe sub =>
+      if due t f then
+        (* re-run: the previous future is aborted (on_cleanup), Suspend::rebuild waits for the new one;
+           what is shown stays until it completes; the sources of the future are linked again only then *)
+        let v1 := logged (lbl f) v in
+        let a := eval (sigs v1) es in
+        let '(k, v2) := new_future (lbl f) v1 in
+        (IAsync (clear f) es ea id m sh (Some (k, a)) false, false, v2)
+      else (i, false, v)
   end.
 
 Fixpoint poll_list (t : nat) (l : list inst) (v : env) : list inst * nat * env :=
@@ -330,6 +368,7 @@ Fixpoint view_of (i : inst) : rview :=
             ((fix go (l : list inst) : list rview :=
                 match l with [] => [] | k :: l => view_of k :: go l end) ks)
   | IIf f memo c a b _ _ => RIf (lbl f) memo c a b
+  | IAsync f es ea _ _ _ _ _ => RAsync (lbl f) es ea
   end.
 
 (** * The mounted system *)
@@ -337,27 +376,78 @@ Record sys := { root : inst; ev : env }.
 
 Inductive event :=
 | EWrite (i : nat) (x : N)     (* signal.set(x) *)
-| EPoll (k : nat).             (* poll the (k mod len)-th ready task *)
+| EPoll (k : nat)              (* poll the (k mod len)-th ready task *)
+| EComplete (l j : nat).       (* the (j mod len)-th outstanding future of the async closure labelled l completes *)
 
 Definition mount (r : rview) (s0 : list N) : sys :=
-  let '(i, v) := build r {| sigs := s0; neid := O; nid := O; ready := []; log := [] |} in
+  let '(i, v) := build r {| sigs := s0; neid := O; nid := O; ready := []; log := []; nfut := O; opened := [] |} in
   {| root := i; ev := v |}.
 
 Definition remove_ready (t : nat) (v : env) : env :=
   {| sigs := sigs v; neid := neid v; nid := nid v;
-     ready := filter (fun x => negb (Nat.eqb x t)) (ready v); log := log v |}.
+     ready := filter (fun x => negb (Nat.eqb x t)) (ready v); log := log v; nfut := nfut v; opened := opened v |}.
+
+(** future [k] completes: the async leaf waiting for it (if it is still mounted and has not re-run
+    since) shows [a + ea] and links the sources read inside the future; returns whether a node
+    appeared (the parent's child list changed) *)
+Fixpoint complete (k : nat) (i : inst) (v : env) {struct i} : inst * bool * env :=
+  match i with
+  | IStatic _ _ _ | IText _ _ _ _ _ => (i, false, v)
+  | IElem id m ps ks =>
+      let '(ks', mk, v1) :=
+        (fix go (l : list inst) (v : env) {struct l} : list inst * nat * env :=
+           match l with
+           | [] => ([], O, v)
+           | x :: l => let '(x', rep, v1) := complete k x v in
+                       let '(l', mk, v2) := go l v1 in
+                       (x' :: l', ((if rep then 2 else 0) + mk)%nat, v2)
+           end) ks v in
+      (IElem id (m + mk)%nat ps ks', false, v1)
+  | IIf f memo c a b br ch =>
+      let '(ch', rep, v1) := complete k ch v in (IIf f memo c a b br ch', rep, v1)
+  | IAsync f es ea id m sh pe sub =>
+      match pe with
+      | Some (k', a) =>
+          if Nat.eqb k k' then
+            let x := (a + eval (sigs v) ea)%N in
+            match sh with
+            | None => (IAsync f es ea id m (Some x) None true, true, v)
+            | Some y => (IAsync f es ea id (if N.eqb x y then m else S m) (Some x) None true, false, v)
+            end
+          else (i, false, v)
+      | None => (i, false, v)
+      end
+  end.
+Fixpoint complete_list (k : nat) (l : list inst) (v : env) : list inst * nat * env :=
+  match l with
+  | [] => ([], O, v)
+  | x :: l => let '(x', rep, v1) := complete k x v in
+              let '(l', mk, v2) := complete_list k l v1 in
+              (x' :: l', ((if rep then 2 else 0) + mk)%nat, v2)
+  end.
+
+Definition close_future (k : nat) (v : env) : env :=
+  {| sigs := sigs v; neid := neid v; nid := nid v; ready := ready v; log := log v; nfut := nfut v;
+     opened := filter (fun x => negb (Nat.eqb (snd x) k)) (opened v) |}.
 
 Definition step (s : sys) (e : event) : sys :=
   match e with
   | EWrite i x =>
       let v := ev s in
-      let v1 := {| sigs := set_nth i x (sigs v); neid := neid v; nid := nid v; ready := ready v; log := log v |} in
+      let v1 := {| sigs := set_nth i x (sigs v); neid := neid v; nid := nid v; ready := ready v; log := log v; nfut := nfut v; opened := opened v |} in
       {| root := notify i (root s); ev := fold_left (fun v t => wake t v) (hits i (root s)) v1 |}
   | EPoll k =>
       match ready (ev s) with
       | [] => s
       | r => let t := nth (k mod length r) r O in
              let '(i', _, v') := poll t (root s) (remove_ready t (ev s)) in
+             {| root := i'; ev := v' |}
+      end
+  | EComplete l j =>
+      match filter (fun x => Nat.eqb (fst x) l) (opened (ev s)) with
+      | [] => s
+      | o => let k := snd (nth (j mod length o) o (O, O)) in
+             let '(i', _, v') := complete k (root s) (close_future k (ev s)) in
              {| root := i'; ev := v' |}
       end
   end.
@@ -367,7 +457,8 @@ Definition run_events (s : sys) (es : list event) : sys := fold_left step es s.
 Definition idle (s : sys) : bool := match ready (ev s) with [] => true | _ => false end.
 
 (** * What is on screen *)
-Inductive shape := SText (n : N) | SElem (props : list (pkind * N)) (kids : list shape).
+Inductive shape := SText (n : N) | SElem (props : list (pkind * N)) (kids : list shape)
+                 | SHole.   (* an async leaf whose first future has not completed: only a placeholder comment *)
 
 Fixpoint shape_of (i : inst) : shape :=
   match i with
@@ -378,6 +469,16 @@ Fixpoint shape_of (i : inst) : shape :=
             ((fix go (l : list inst) : list shape :=
                 match l with [] => [] | k :: l => shape_of k :: go l end) ks)
   | IIf _ _ _ _ _ _ ch => shape_of ch
+  | IAsync _ _ _ _ _ sh _ _ => match sh with Some x => SText x | None => SHole end
+  end.
+
+(** no async leaf is waiting for a future *)
+Fixpoint settled (i : inst) : bool :=
+  match i with
+  | IStatic _ _ _ | IText _ _ _ _ _ => true
+  | IElem _ _ _ ks => (fix go (l : list inst) : bool := match l with [] => true | k :: l => settled k && go l end) ks
+  | IIf _ _ _ _ _ _ ch => settled ch
+  | IAsync _ _ _ _ _ _ pe _ => match pe with None => true | Some _ => false end
   end.
 
 (** rendering the view from scratch with the given signal values *)
@@ -390,6 +491,7 @@ Fixpoint fresh (s : list N) (r : rview) : shape :=
             ((fix go (l : list rview) : list shape :=
                 match l with [] => [] | k :: l => fresh s k :: go l end) ks)
   | RIf _ _ c a b => if nz (eval s c) then fresh s a else fresh s b
+  | RAsync _ es ea => SText (eval s es + eval s ea)
   end.
 
 (** DOM nodes with identity and mutation counter, in document order *)
@@ -401,4 +503,5 @@ Fixpoint nodes (i : inst) : list (nat * nat) :=
       (id, m) :: (fix go (l : list inst) : list (nat * nat) :=
                     match l with [] => [] | k :: l => nodes k ++ go l end) ks
   | IIf _ _ _ _ _ _ ch => nodes ch
+  | IAsync _ _ _ id m sh _ _ => match sh with Some _ => [(id, m)] | None => [] end
   end.
